@@ -6,7 +6,7 @@ import mpmath as mp
 import numpy as np
 from hypothesis import strategies as st
 
-from ..core import Facet, Violation, clear_package_caches
+from ..core import Facet, Violation, attributed, clear_package_caches
 from ..gen import logfloat, quaternion, rotmat_from_quat, unit_vector
 from ..ref import geom, units
 
@@ -777,10 +777,18 @@ def _run_map(case, cyl, beam, detectors, density):
     det = sc.vectors(dims=dims, values=np.asarray(detectors, dtype=float).reshape([*shape, 3]),
                      unit=case["det_unit"])
     wav = sc.array(dims=["wavelength"], values=[float(v) for v in case["wavelengths"]], unit=case["wl_unit"])
-    tm = compute_transmission_map(
-        build_cylinder(cyl), material, beam_direction=sc.vector(beam), wavelength=wav,
-        detector_position=det, quadrature_kind=case["kind"],
-    )
+    # every other call passes the arguments by position, in the documented order (seeded C18-s12 swapped
+    # two parameters in the signature; keyword callers never notice)
+    positional = len(detectors) % 2 == 0
+    with attributed("compute_transmission_map(shape, material, beam_direction, wavelength, detector_position, kind)"
+                    + (" called with positional arguments" if positional else "")):
+        if positional:
+            tm = compute_transmission_map(build_cylinder(cyl), material, sc.vector(beam), wav, det, case["kind"])
+        else:
+            tm = compute_transmission_map(
+                build_cylinder(cyl), material, beam_direction=sc.vector(beam), wavelength=wav,
+                detector_position=det, quadrature_kind=case["kind"],
+            )
     if tm.data.unit != sc.units.one:
         raise Violation("T-unit", f"transmission has unit {tm.data.unit}")
     if set(tm.dims) != {"wavelength", *dims}:
